@@ -74,7 +74,8 @@ class MonitorExec(Exec):
             from .symexec import ContractStale
             raise ContractStale(f'{c.fid}: method not found')
         self.c, self.fnode, self.mspec = c, fnode, mspec
-        self.loops = []
+        from .symexec import loops_in_order
+        self.loops = [l for l in loops_in_order(fnode) if isinstance(l, ast.For)] if c.loops else []
         sym.reset_names()
         st = State()
         self.inputs = {}
